@@ -434,7 +434,12 @@ class Tuner:
                 trial_status_dict=trial_status_dict, new_results=new_results
             )
 
-        assert len(running_trials_ids) <= self.n_workers
+        # If ``start_jobs_without_delay`` is False, ``running_trials_ids`` can
+        # also contain trials which terminated since the most recent poll
+        assert (
+            not self.start_jobs_without_delay
+            or len(running_trials_ids) <= self.n_workers
+        )
 
         # Gets list of trials that are done with the new results.
         # The trials can be finished for different reasons:
@@ -485,11 +490,11 @@ class Tuner:
             )
             self._sleep()
         else:
-            if not self.start_jobs_without_delay and num_busy_workers < len(
-                running_trials_ids
-            ):
-                # In this case, the information from the backend is more recent
-                running_trials_ids = set(x[0] for x in busy_trial_ids)
+            # Note: If ``start_jobs_without_delay`` is False, ``running_trials_ids``
+            # may contain trials which the backend does not report as busy
+            # anymore. They remain in ``running_trials_ids`` (of the caller) until
+            # their final results have been processed, and new trials are added to
+            # the same set, so that their results are fetched.
             # Schedule as many trials as we have free workers
             for _ in range(self.n_workers - num_busy_workers):
                 trial = self._schedule_new_task()
